@@ -19,6 +19,18 @@ F = "JP.Facts."
 # which module proves which regenerated fact (split by source file, so that an edit to one
 # file only touches the obligations of the properties anchored there)
 FACT_MODULE = {
+    "JP.Facts.bodies_v5_patch_eq": "JP.Props.Bodies.V5Patch",
+    "JP.Facts.bodies_v5_merge_eq": "JP.Props.Bodies.V5Merge",
+    "JP.Facts.bodies_codec_scanner_eq": "JP.Props.Bodies.CodecScanner",
+    "JP.Facts.bodies_codec_indent_eq": "JP.Props.Bodies.CodecIndent",
+    "JP.Facts.bodies_codec_decode_eq": "JP.Props.Bodies.CodecDecode",
+    "JP.Facts.bodies_codec_encode_eq": "JP.Props.Bodies.CodecEncode",
+    "JP.Facts.bodies_codec_stream_eq": "JP.Props.Bodies.CodecStream",
+    "JP.Facts.bodies_codec_other_eq": "JP.Props.Bodies.CodecOther",
+    "JP.Facts.bodies_legacy_patch_eq": "JP.Props.Bodies.LegacyPatch",
+    "JP.Facts.bodies_legacy_merge_eq": "JP.Props.Bodies.LegacyMerge",
+    "JP.Facts.bodies_cmd_eq": "JP.Props.Bodies.Cmd",
+    "JP.Facts.sourceFilesOutsideGroups_eq": "JP.Props.Bodies.Files",
     "JP.Facts.applyReturnsNil_eq": "JP.Props.FactsPatch",
     "JP.Facts.codecConditions_eq": "JP.Props.FactsCodec",
     "JP.Facts.codecVars_eq": "JP.Props.FactsCodec",
@@ -232,3 +244,31 @@ try:
         PLAN[_k]["assumptions"] = _v
 except ImportError:
     pass
+
+# ---- source-text inventory (JP/Generated/Bodies.lean vs JP/Props/Bodies/*.lean): which file groups a property is
+# anchored in (properties.jsonl, anchors.files).  Any edit of such a file breaks the obligation.
+_B = lambda *ks: [F + "bodies_" + k + "_eq" for k in ks] + [F + "sourceFilesOutsideGroups_eq"]
+BODY_FACTS = {
+    "C01": _B("v5_patch"),
+    "C02": _B("v5_merge", "v5_patch"),
+    "C03": _B("v5_merge"),
+    "C04": _B("v5_patch", "v5_merge", "codec_decode", "legacy_patch", "legacy_merge"),
+    "C05": _B("v5_patch", "v5_merge", "codec_decode", "codec_encode"),
+    "C06": _B("v5_patch"),
+    "C07": _B("v5_merge"),
+    "C08": _B("v5_patch"),
+    "C09": _B("v5_patch", "v5_merge", "codec_decode", "codec_encode", "codec_scanner"),
+    "C10": _B("v5_patch", "v5_merge", "codec_decode", "codec_encode", "codec_scanner", "codec_indent"),
+    "C11": _B("v5_patch"),
+    "C12": _B("v5_patch", "legacy_patch"),
+    "C13": _B("v5_patch"),
+    "C14": _B("v5_patch"),
+    "C15": _B("v5_patch", "codec_encode", "codec_indent"),
+    "C16": _B("codec_scanner", "codec_decode", "codec_indent", "v5_patch", "v5_merge"),
+    "C17": _B("codec_decode", "codec_encode", "codec_indent", "codec_stream", "codec_other", "codec_scanner"),
+    "C18": _B("legacy_patch"),
+    "C19": _B("legacy_merge", "legacy_patch"),
+    "C20": _B("cmd"),
+}
+for _pid, _fs in BODY_FACTS.items():
+    PLAN[_pid]["facts"] = list(PLAN[_pid].get("facts", [])) + [f for f in _fs if f not in PLAN[_pid].get("facts", [])]
